@@ -19,6 +19,7 @@ type Gate struct {
 	skip    int
 	reached chan struct{}
 	release chan struct{}
+	only    string // if set, only calls from this point count
 	Point   string // where the held call came from
 }
 
@@ -26,10 +27,18 @@ type Gate struct {
 func (g *Gate) Arm(skip int) {
 	g.mu.Lock()
 	defer g.mu.Unlock()
-	g.armed, g.skip = true, skip
+	g.armed, g.skip, g.only = true, skip, ""
 	g.reached = make(chan struct{})
 	g.release = make(chan struct{})
 	g.Point = ""
+}
+
+// ArmAt holds the (skip+1)-th call that comes from the named point.
+func (g *Gate) ArmAt(point string, skip int) {
+	g.Arm(skip)
+	g.mu.Lock()
+	g.only = point
+	g.mu.Unlock()
 }
 
 // Pass is called at every schedule point.
@@ -38,7 +47,7 @@ func (g *Gate) Pass(point string) {
 		return
 	}
 	g.mu.Lock()
-	if !g.armed {
+	if !g.armed || (g.only != "" && g.only != point) {
 		g.mu.Unlock()
 		return
 	}
